@@ -598,4 +598,54 @@ Section RunProofs.
       + destruct Hp.
       + exists [], u. rewrite Hp. cbn. rewrite app_nil_r. repeat split; constructor.
   Qed.
+
+  (* ---------------------------------------------------------------- SetCurrentTime *)
+
+  Lemma set_time_ok en t : eok en -> (forall x, In x (pending en) -> t <= qt x) -> eok (set_current_time en t).
+  Proof.
+    intros (A & B & C & D & _) Ht. split; [exact A|]. split; [exact B|]. split; [exact C|]. split; [exact D|].
+    exact Ht.
+  Qed.
+
+  Lemma next_event_set_time (en : @engine E) t :
+    next_event etime (set_current_time en t) =
+    match next_event etime en with
+    | Some (x, en1) => Some (x, set_current_time en1 t)
+    | None => None
+    end.
+  Proof.
+    unfold next_event, set_current_time. cbn [e_p e_s e_now].
+    destruct (Nat.eqb (q_len (e_p en)) 0).
+    { destruct (q_pop etime (e_s en)) as [[x s']|]; reflexivity. }
+    destruct (Nat.eqb (q_len (e_s en)) 0).
+    { destruct (q_pop etime (e_p en)) as [[x p']|]; reflexivity. }
+    destruct (q_peek (e_p en)); [|reflexivity]. destruct (q_peek (e_s en)); [|reflexivity].
+    destruct (qtime etime q <=? qtime etime q0).
+    - destruct (q_pop etime (e_p en)) as [[x p']|]; reflexivity.
+    - destruct (q_pop etime (e_s en)) as [[x s']|]; reflexivity.
+  Qed.
+
+  (** a clock set after the event that is due first makes the next dispatch (hence Run) panic
+      before any hook or handler runs; that event is dropped from its queue *)
+  Lemma run_clock_ahead_panics en t fuel hs : eok en -> no_more_event en = false ->
+    exists x en1, next_event etime en = Some (x, en1) /\
+      (forall y, In y (pending en) -> qt x <= qt y) /\
+      (qt x < t ->
+       disp hs (set_current_time en t) = DPast x (set_current_time en1 t) /\
+       run etime esec H (S fuel) hs (set_current_time en t) =
+         mk_result Panicked [] hs (set_current_time en1 t)).
+  Proof.
+    intros Hok Hmore.
+    destruct (next_event_spec etime esec en Hok Hmore) as (x & en1 & Hne & _ & P & _ & _ & B & _).
+    exists x, en1. split; [exact Hne|]. split.
+    { intros y Hy. apply (Permutation_in _ P) in Hy. destruct Hy as [<-|Hy]; [lia|].
+      specialize (B y Hy). unfold before in B. lia. }
+    intro Hlt.
+    assert (Hd : disp hs (set_current_time en t) = DPast x (set_current_time en1 t)).
+    { unfold dispatch_next. rewrite next_event_set_time, Hne. cbn [set_current_time e_now].
+      destruct (N.ltb_spec (qt x) t); [reflexivity|lia]. }
+    split; [exact Hd|]. cbn [run].
+    assert (Hm : no_more_event (set_current_time en t) = false) by exact Hmore.
+    rewrite Hm, Hd. reflexivity.
+  Qed.
 End RunProofs.
